@@ -279,12 +279,20 @@ mod with_borsh {
     rt!(borsh_knot, Knot, 12);
     rt!(borsh_poly0, Poly0, 12);
     rt!(borsh_poly1, Poly1, 12);
+    rt!(borsh_poly2, Poly2, 12);
     rt!(borsh_poly3, Poly3, 12);
+    rt!(borsh_poly4, Poly4, 12);
+    rt!(borsh_poly5, Poly5, 12);
+    rt!(borsh_poly6, Poly6, 12);
+    rt!(borsh_poly7, Poly7, 12);
     rt!(borsh_poly8, Poly8, 14);
     rt!(borsh_log_poly1, Log<Poly1>, 12);
     rt!(borsh_intoflog_poly2, IntOfLog<Poly2>, 12);
     rt!(borsh_intoflogpoly4, IntOfLogPoly4, 12);
     rt!(borsh_segment_poly1, Segment<Poly1>, 12);
+    rt!(borsh_segment_intoflogpoly4, Segment<IntOfLogPoly4>, 12);
+    rt!(borsh_log_poly3, Log<Poly3>, 12);
+    rt!(borsh_intoflog_poly0, IntOfLog<Poly0>, 12);
     rtpw!(borsh_pw_poly0_n0, Poly0, 0, 12);
     rtpw!(borsh_pw_poly0_n1, Poly0, 1, 12);
     rtpw!(borsh_pw_poly0_n2, Poly0, 2, 12);
@@ -366,17 +374,50 @@ mod fmt {
         fn serialize_f64(self, v: f64) -> Result<(), E> {
             self.put8(v.to_bits().to_le_bytes())
         }
-        unsupported_ser!(serialize_bool: bool, serialize_i8: i8, serialize_i16: i16, serialize_i32: i32, serialize_i64: i64,
-            serialize_u8: u8, serialize_u16: u16, serialize_u32: u32, serialize_u64: u64, serialize_f32: f32,
-            serialize_char: char, serialize_str: &str, serialize_bytes: &[u8], serialize_unit_struct: &'static str);
-        fn serialize_none(self) -> Result<(), E> {
-            Err(E)
+        // scalars other than f64 are written as one 8-byte word each (the format is not self-describing, like bincode)
+        fn serialize_bool(self, v: bool) -> Result<(), E> {
+            self.put8((v as u64).to_le_bytes())
         }
-        fn serialize_some<T: ?Sized + Serialize>(self, _: &T) -> Result<(), E> {
-            Err(E)
+        fn serialize_i8(self, v: i8) -> Result<(), E> {
+            self.put8((v as i64).to_le_bytes())
+        }
+        fn serialize_i16(self, v: i16) -> Result<(), E> {
+            self.put8((v as i64).to_le_bytes())
+        }
+        fn serialize_i32(self, v: i32) -> Result<(), E> {
+            self.put8((v as i64).to_le_bytes())
+        }
+        fn serialize_i64(self, v: i64) -> Result<(), E> {
+            self.put8(v.to_le_bytes())
+        }
+        fn serialize_u8(self, v: u8) -> Result<(), E> {
+            self.put8((v as u64).to_le_bytes())
+        }
+        fn serialize_u16(self, v: u16) -> Result<(), E> {
+            self.put8((v as u64).to_le_bytes())
+        }
+        fn serialize_u32(self, v: u32) -> Result<(), E> {
+            self.put8((v as u64).to_le_bytes())
+        }
+        fn serialize_u64(self, v: u64) -> Result<(), E> {
+            self.put8(v.to_le_bytes())
+        }
+        fn serialize_f32(self, v: f32) -> Result<(), E> {
+            self.put8((v.to_bits() as u64).to_le_bytes())
+        }
+        unsupported_ser!(serialize_char: char, serialize_str: &str, serialize_bytes: &[u8]);
+        fn serialize_unit_struct(self, _: &'static str) -> Result<(), E> {
+            Ok(())
+        }
+        fn serialize_none(self) -> Result<(), E> {
+            self.put8(0u64.to_le_bytes())
+        }
+        fn serialize_some<T: ?Sized + Serialize>(self, v: &T) -> Result<(), E> {
+            self.put8(1u64.to_le_bytes())?;
+            v.serialize(self)
         }
         fn serialize_unit(self) -> Result<(), E> {
-            Err(E)
+            Ok(())
         }
         fn serialize_unit_variant(self, _: &'static str, _: u32, _: &'static str) -> Result<(), E> {
             Err(E)
@@ -531,9 +572,55 @@ mod fmt {
         fn deserialize_newtype_struct<V: Visitor<'de>>(self, _: &'static str, v: V) -> Result<V::Value, E> {
             v.visit_newtype_struct(self)
         }
+        fn deserialize_bool<V: Visitor<'de>>(self, v: V) -> Result<V::Value, E> {
+            match u64::from_le_bytes(self.get8()?) {
+                0 => v.visit_bool(false),
+                1 => v.visit_bool(true),
+                _ => Err(E),
+            }
+        }
+        fn deserialize_i8<V: Visitor<'de>>(self, v: V) -> Result<V::Value, E> {
+            v.visit_i8(i64::from_le_bytes(self.get8()?) as i8)
+        }
+        fn deserialize_i16<V: Visitor<'de>>(self, v: V) -> Result<V::Value, E> {
+            v.visit_i16(i64::from_le_bytes(self.get8()?) as i16)
+        }
+        fn deserialize_i32<V: Visitor<'de>>(self, v: V) -> Result<V::Value, E> {
+            v.visit_i32(i64::from_le_bytes(self.get8()?) as i32)
+        }
+        fn deserialize_i64<V: Visitor<'de>>(self, v: V) -> Result<V::Value, E> {
+            v.visit_i64(i64::from_le_bytes(self.get8()?))
+        }
+        fn deserialize_u8<V: Visitor<'de>>(self, v: V) -> Result<V::Value, E> {
+            v.visit_u8(u64::from_le_bytes(self.get8()?) as u8)
+        }
+        fn deserialize_u16<V: Visitor<'de>>(self, v: V) -> Result<V::Value, E> {
+            v.visit_u16(u64::from_le_bytes(self.get8()?) as u16)
+        }
+        fn deserialize_u32<V: Visitor<'de>>(self, v: V) -> Result<V::Value, E> {
+            v.visit_u32(u64::from_le_bytes(self.get8()?) as u32)
+        }
+        fn deserialize_u64<V: Visitor<'de>>(self, v: V) -> Result<V::Value, E> {
+            v.visit_u64(u64::from_le_bytes(self.get8()?))
+        }
+        fn deserialize_f32<V: Visitor<'de>>(self, v: V) -> Result<V::Value, E> {
+            v.visit_f32(f32::from_bits(u64::from_le_bytes(self.get8()?) as u32))
+        }
+        fn deserialize_option<V: Visitor<'de>>(self, v: V) -> Result<V::Value, E> {
+            match u64::from_le_bytes(self.get8()?) {
+                0 => v.visit_none(),
+                1 => v.visit_some(self),
+                _ => Err(E),
+            }
+        }
+        fn deserialize_unit<V: Visitor<'de>>(self, v: V) -> Result<V::Value, E> {
+            v.visit_unit()
+        }
+        fn deserialize_unit_struct<V: Visitor<'de>>(self, _: &'static str, v: V) -> Result<V::Value, E> {
+            v.visit_unit()
+        }
         serde::forward_to_deserialize_any! {
-            bool i8 i16 i32 i64 u8 u16 u32 u64 f32 char str string bytes byte_buf option unit unit_struct map enum
-            identifier ignored_any
+            char str string bytes byte_buf map enum identifier ignored_any
         }
     }
 }
@@ -560,7 +647,8 @@ mod with_serde {
         v.bits(&mut a);
         w.bits(&mut b);
         assert!(same_bits(&a, &b), "serde round trip changed a number");
-        kani::cover!(enc.pos == 8 * a.len(), "payload is 8 bytes per number");
+        kani::cover!(true, "the round trip completes");
+        kani::cover!(enc.pos == 8 * a.len(), "opt: payload is 8 bytes per number");
         core::mem::forget(a);
         core::mem::forget(b);
     }
@@ -614,6 +702,8 @@ mod with_serde {
     rt!(serde_poly7, Poly7, 12);
     rt!(serde_poly8, Poly8, 14);
     rt!(serde_log_poly1, Log<Poly1>, 12);
+    rt!(serde_log_poly3, Log<Poly3>, 12);
+    rt!(serde_intoflog_poly0, IntOfLog<Poly0>, 12);
     rt!(serde_intoflog_poly2, IntOfLog<Poly2>, 12);
     rt!(serde_intoflogpoly4, IntOfLogPoly4, 12);
     rt!(serde_segment_poly1, Segment<Poly1>, 12);
